@@ -323,6 +323,7 @@ func (e *Engine) Load() error {
 			for _, ls := range con.Loops {
 				all = append(all, ls.Invariants...)
 				all = append(all, ls.Steps...)
+				all = append(all, ls.Exits...)
 				if ls.Decreases != nil {
 					all = append(all, ls.Decreases)
 				}
